@@ -273,7 +273,7 @@ func (m *Machine) selectOp(fr *frame, instr *ssa.Select) Value {
 		rd = readyIdx()
 	}
 	chosen := rd[0]
-	if len(rd) > 1 {
+	if len(rd) > 1 && !m.fixedSchedule {
 		chosen = rd[m.Choose("select", len(rd))]
 	}
 	s := states[chosen]
